@@ -4,7 +4,7 @@
    correspondence check ties it to the code on every run. *)
 From Coq Require Import List Arith.
 Import ListNotations.
-From TarpcV Require Import PerKey PerKeyProofs PerKeyRace PerKeyRaceProofs PerKeyRaceFlow.
+From TarpcV Require Import PerKey PerKeyProofs PerKeyRace PerKeyRaceProofs PerKeyRaceFlow PerKeyRaceTerm.
 
 (* for every n >= 1 and every sequence of arrivals, closes, polls and listener end:
    the monitor (never more than n alive per key at a yield; a shed only with exactly n alive;
@@ -94,6 +94,16 @@ Proof. exact race_pc_flow. Qed.
 Theorem C13_race_env_keeps_pc : forall s o, o <> RListener -> pc (fst (rstep s o)) = pc s.
 Proof. exact race_env_keeps_pc. Qed.
 
+(* poll_next of the race model returns: with no interference, from any point of its loop, within
+   4 * (pending arrivals + queued notifications) + 5 atomic actions of the listener *)
+Theorem C13_race_poll_terminates : forall fuel s, phi s < fuel ->
+  exists n, 1 <= n <= fuel /\ pc (lsteps n s) = PcIdle.
+Proof. exact race_poll_terminates. Qed.
+
+Theorem C13_race_poll_bound : forall s,
+  exists n, 1 <= n <= 4 * mu (rb s) + 5 /\ pc (lsteps n s) = PcIdle.
+Proof. exact race_poll_bound. Qed.
+
 Print Assumptions C13_monitor.
 Print Assumptions C13_alive_le_n.
 Print Assumptions C13_accept_below_n.
@@ -106,3 +116,5 @@ Print Assumptions C13_race_accept_below_n.
 Print Assumptions C13_race_accept_after_read.
 Print Assumptions C13_race_pc_flow.
 Print Assumptions C13_race_env_keeps_pc.
+Print Assumptions C13_race_poll_terminates.
+Print Assumptions C13_race_poll_bound.
